@@ -40,8 +40,13 @@ theorem fmap_workers_exited (cfg : Cfg) (hw : Wellformed cfg) (s : St) (h : Reac
   first | exact WindVerif.FMap.fmap_workers_exited .. | (apply WindVerif.FMap.fmap_workers_exited <;> assumption)
 
 /-- non-vacuity: two workers, results arriving out of order, still handed over in order -/
-example : ((run (init ⟨2, 2, false, [2]⟩) [.p, .p, .p, .p, .p, .p, .w 1, .w 0, .w 0, .w 1, .p, .p]).map (·.out)) =
+example : ((run (init ⟨2, 2, false, [2], false⟩) [.p, .p, .p, .p, .p, .p, .w 1, .w 0, .w 0, .w 1, .p, .p]).map (·.out)) =
     some [(1, 0), (1, 1)] := by decide
-example : Wellformed ⟨2, 2, false, [2]⟩ := by unfold Wellformed; decide
+example : Wellformed ⟨2, 2, false, [2], false⟩ := by unfold Wellformed; decide
+
+/-- non-vacuity of the `exact` caller (closes the generator at the last item of a call): after the last result of call 1 the
+very next step of `P` is already the first `put` of call 2 -/
+example : ((run (init ⟨2, 2, false, [2, 1], true⟩) [.p, .p, .p, .w 0, .w 0, .p, .p, .p, .w 0, .w 0, .p]).map
+    (fun s => (s.out, s.callNo))) = some ([(1, 0), (1, 1)], 2) := by decide
 
 end WindVerif.C05
